@@ -10,7 +10,7 @@ from natives_fs import PStr, text_of
 
 REPL = ["{}", "X", "%%"]
 INIT = ["a{}b", "{}{}", "plain", "X", "", "{", "-{}"]
-LINES = ["l 1", "{}", "", "X", "a'b"]
+LINES = ["l 1", "{}", "", "X", "a'b", "t \t"]          # the last one ends in blanks (only leading blanks are excluded by the property)
 
 
 @model("str::replace")
@@ -21,6 +21,20 @@ def _replace(m, args, raw):
 @model("OsStr::to_string_lossy", "<Cow as Deref>::deref", "^<OsString as From(<.*>)?>::from$")
 def _text_identity(m, args, raw):
     return PStr(text_of(m, args[0]))
+
+
+@model("str::trim_matches", "str::trim_start_matches", "str::trim_end_matches", "str::trim", "str::trim_start", "str::trim_end")
+def _trim(m, args, raw):
+    t = text_of(m, args[0])
+    if len(args) > 1:
+        pat = deref(args[1])
+        chars = "".join(chr(c) for c in (pat if isinstance(pat, list) else [pat]))
+    else:
+        chars = " \t\n\x0b\x0c\r"
+    name = raw.split("::<")[0].rsplit("::", 1)[-1]
+    if "start" in name: return PStr(t.lstrip(chars))
+    if "end" in name: return PStr(t.rstrip(chars))
+    return PStr(t.strip(chars))
 
 
 @model("Stdio::null")
@@ -327,7 +341,7 @@ def explore_normalize(funcs, index, enums, text=None):
 
 # ----------------------------------------------------------------------------------------------- the -I pipeline: process_input + real execute
 PIPE_INIT = ["a{}b", "X%%", "plain", "{}{}"]
-PIPE_LINES = ["l 1", "{}", "X"]
+PIPE_LINES = ["l 1", "{}", "X", "t \t"]
 
 
 def explore_pipeline(nlines, funcs, index, enums):
